@@ -104,6 +104,14 @@ pub fn dict0() -> GDict {
     d.add(GDef { code: 1, vendor: Some(7), name: "Twin1".into(), ty: T_UTF8, m: true });
     d.add(GDef { code: 9, vendor: Some(7), name: "Twin9".into(), ty: T_U32, m: false });
     d.add(GDef { code: 14, vendor: Some(4294967295), name: "TwinMax".into(), ty: T_GROUPED, m: false });
+    // twin sets whose types have the same size on the wire (a value read under the neighbour's type goes unnoticed
+    // unless someone looks at the variant)
+    for (code, tys) in [(300u32, [T_U32, T_I32, T_F32, T_ENUM]), (301, [T_UTF8, T_OCT, T_IDENT, T_URI]), (302, [T_U64, T_I64, T_F64, T_U64])] {
+        for (k, ty) in tys.iter().enumerate() {
+            let vendor = [None, Some(111u32), Some(222), Some(333)][k];
+            d.add(GDef { code, vendor, name: format!("Set{}v{}", code, k), ty: *ty, m: k % 2 == 0 });
+        }
+    }
     d.add(GDef { code: 4294967295, vendor: None, name: "MaxCode".into(), ty: T_OCT, m: false });
     d.add(GDef { code: 0, vendor: Some(0), name: "Zero".into(), ty: T_U64, m: true });
     d.add(GDef { code: 200, vendor: None, name: "Odd".into(), ty: T_UNKNOWN, m: false });
@@ -221,7 +229,15 @@ impl GV {
                         out.push(format!("grp_add_avp {} {} {}", m.code, vend(m.vendor), m.flags));
                     } else {
                         out.push(format!("avp_new {} {} {}", m.code, vend(m.vendor), m.flags));
+                        if r.chance(1, 4) {
+                            out.push("vlen".into());
+                        }
                         out.push("grp_add".into());
+                    }
+                    // now and then someone asks the group how long it is while it is still being filled (a size budget):
+                    // asking must not change what is added or encoded later
+                    if r.chance(1, 3) {
+                        out.push("vlen".into());
                     }
                 }
             }
@@ -814,6 +830,34 @@ fn gen_c03(o: &mut Out, r: &mut Rng, d: &GDict, tier: &str) {
             o.line(&format!("dec {}", hex(f)));
         }
     });
+    // the dictionary is replaced again and again by one that types the same AVP differently (the earlier dictionary
+    // object is gone by then): a frame means what the dictionary in force says, not what an earlier one said
+    {
+        o.case("retyped dictionaries");
+        let tys = ["UTF8String", "Unsigned64", "OctetString", "Integer64", "DiameterIdentity", "Float64", "Grouped", "DiameterURI", "Time", "Unsigned32"];
+        let frame = |code: u32, vendor: Option<u32>| -> Vec<u8> {
+            let mut m = GM { version: 1, flags: 0x80, cmd: 272, app: 4, hbh: 9, e2e: 8, avps: vec![] };
+            m.avps.push(GA { code, vendor, flags: 0x40, v: GV::Oct(b"hello wo".to_vec()) });
+            m.encode(&mut None)
+        };
+        for round in 0..(if thorough { 400 } else { 40 }) {
+            o.line("dreset");
+            // (the message the harness holds refers to the dictionary it was made with: replace it, so that the old
+            // dictionary object really goes away)
+            let t = tys[(round * 7 + round / 3) % tys.len()];
+            o.line(&format!("dadd 7001 - {} {} 1", hexd(b"Re-Typed"), t));
+            o.line(&format!("dadd 7001 77 {} {} 0", hexd(b"Re-Typed-V"), tys[(round * 3 + 1) % tys.len()]));
+            if round % 5 == 4 {
+                o.line(&format!("dadd 7002 - {} {} 0", hexd(b"Extra"), tys[round % tys.len()]));
+            }
+            o.line("new 272 4 0 1 2");
+            o.line(&format!("dec {}", hex(&frame(7001, None))));
+            o.line(&format!("dec {}", hex(&frame(7001, Some(77)))));
+            o.line(&format!("dec {}", hex(&frame(7002, None))));
+        }
+        emit_dict(o.w, d);
+        o.line("new 272 4 0 1 2");
+    }
     // nesting up to the limit and just beyond
     for depth in 1..40 {
         let inner = avp_of(r, d, d.by_type(T_U32)[0], 0, 0);
@@ -1105,6 +1149,23 @@ fn big_cases(o: &mut Out, r: &mut Rng, d: &GDict, thorough: bool, probe: &dyn Fn
         m.avps = vec![member.clone(); k];
         emit(o, r, &format!("manymembers top k={}", k), &m);
     }
+    // many groups side by side (each a few levels deep): at top level and as members of one group - what the decoder keeps
+    // per nesting level must be given back when a group is finished, however many groups came before
+    for k in [31usize, 32, 33, 40, 100, 300] {
+        for levels in [1usize, 2, 5] {
+            let leaf = GA { code: u32d.code, vendor: u32d.vendor, flags: 0x40, v: GV::U32(k as u32) };
+            let mut one = leaf.clone();
+            for _ in 0..levels {
+                one = GA { code: grp.code, vendor: grp.vendor, flags: 0x40, v: GV::Grp(vec![one]) };
+            }
+            let mut m = header(r);
+            m.avps = vec![one.clone(); k];
+            emit(o, r, &format!("manygroups top k={} levels={}", k, levels), &m);
+            let mut m = header(r);
+            m.avps.push(GA { code: grp.code, vendor: grp.vendor, flags: 0x40, v: GV::Grp(vec![one.clone(); k]) });
+            emit(o, r, &format!("manygroups group k={} levels={}", k, levels), &m);
+        }
+    }
     // a group whose small members add up past 1 MiB
     {
         o.case("biggroup");
@@ -1290,6 +1351,38 @@ fn gen_c04(o: &mut Out, r: &mut Rng, d: &GDict, tier: &str) {
         }
         o.case(&format!("deepnest depth={}", depth));
         o.line(&format!("decq {}", hex(&f)));
+    }
+    // history on one thread: thousands of frames that are refused (nested too deeply, cut short, unknown AVP), then the
+    // deep ones again - whatever a refusal leaves behind inside the library must not add up
+    {
+        let g = d.by_type(T_GROUPED).into_iter().find(|g| g.vendor.is_none()).unwrap();
+        let deep = |depth: usize| -> Vec<u8> {
+            let total = 20 + 8 * depth;
+            let mut f = Vec::with_capacity(total);
+            f.push(1);
+            f.extend(&(total as u32).to_be_bytes()[1..]);
+            f.extend([0x80, 0, 1, 16, 0, 0, 0, 4, 0, 0, 0, 1, 0, 0, 0, 2]);
+            for i in 0..depth {
+                f.extend(g.code.to_be_bytes());
+                f.push(0x40);
+                f.extend(&((8 * (depth - i)) as u32).to_be_bytes()[1..]);
+            }
+            f
+        };
+        o.case("drift after many refusals");
+        let n = if thorough { 100000 } else { 6000 };
+        o.line(&format!("repeat {} decq {}", n, hex(&deep(200))));
+        let mut cut = deep(40);
+        cut.truncate(20 + 8 * 36 + 3);
+        o.line(&format!("repeat {} decq {}", n, hex(&cut)));
+        let mut unk = deep(12);
+        let k = unk.len();
+        unk[k - 8..k - 4].copy_from_slice(&[0x00, 0xff, 0xff, 0xf1]);
+        o.line(&format!("repeat {} decq {}", n, hex(&unk)));
+        for depth in [5000usize, 20000, 131000] {
+            o.line(&format!("decq {}", hex(&deep(depth))));
+        }
+        o.line(&format!("repeat 50 decq {}", hex(&deep(16))));
     }
     // width: very many small AVPs side by side - at top level, inside one group, inside a group inside a group (the
     // work per frame must stay linear in its size; what the transport admits is 1 MiB, what the protocol allows 16 MiB)
@@ -2769,6 +2862,49 @@ fn gen_c14(o: &mut Out, r: &mut Rng, tier: &str) {
     }
 }
 
+/// documents of hundreds (thorough: thousands) of definitions, loaded into dictionaries that are smaller, larger, empty:
+/// latest wins whatever the sizes involved
+fn gen_big_documents(o: &mut Out, r: &mut Rng, tier: &str) {
+    let thorough = tier == "thorough";
+    let plans: Vec<Vec<usize>> = if thorough {
+        vec![vec![40, 20, 300, 260, 301], vec![255, 256, 257], vec![1000, 3000, 999], vec![10, 5000, 10, 4000]]
+    } else {
+        vec![vec![40, 20, 300, 260, 301], vec![255, 256, 257]]
+    };
+    for plan in plans {
+        o.case(&format!("big documents {:?}", plan));
+        o.line("dreset");
+        let query = |o: &mut Out, r: &mut Rng, upto: u32| {
+            for c in (7000..7045).chain([8000 + upto / 2, 8000 + upto - 1, 8000 + upto]) {
+                o.line(&format!("dget {} -", c));
+                if c % 7 == 0 {
+                    o.line(&format!("dget {} 5", c));
+                }
+            }
+            for gen in 0..6 {
+                let c = 7000 + r.below(45);
+                o.line(&format!("dbyname {}", hexd(format!("D{}-{}", gen, c).as_bytes())));
+            }
+        };
+        for (gen, n) in plan.iter().enumerate() {
+            // every document re-declares a stretch of the codes 7000.. (under a new name and type) and brings new codes
+            o.line("doc_begin");
+            o.line(&format!("app 4 {}", hexd(b"Big")));
+            let redeclared = (*n as u32).min(30 + 3 * gen as u32);
+            for k in 0..*n as u32 {
+                let code = if k < redeclared { 7000 + k } else { 8000 + k };
+                let ty = ["Unsigned32", "UTF8String", "OctetString", "Integer32", "Unsigned64", "Enumerated"][(gen + k as usize) % 6];
+                o.line(&doc_avp_line(&format!("D{}-{}", gen, code), code, if k % 11 == 10 { Some(5) } else { None }, if k % 2 == 0 { Some("M") } else { None }, ty));
+            }
+            o.line("doc_end load");
+            query(o, r, *n as u32);
+            // a single definition put in by hand between the documents
+            o.line(&format!("dadd {} - {} Unsigned32 1", 7040 + gen, hexd(format!("Hand-{}", gen).as_bytes())));
+            query(o, r, *n as u32);
+        }
+    }
+}
+
 /// dictionary objects are independent of each other: what is put into the library's process-wide default dictionary
 /// (or into any other object) is not in a dictionary built afterwards from the built-in document, and vice versa.
 /// Queries stay inside a reserved key / name universe that the built-in document does not touch, so the model needs no
@@ -2845,6 +2981,22 @@ fn gen_c15(o: &mut Out, r: &mut Rng, _tier: &str, extra: &[String]) {
                     m.avps.push(a.clone());
                     o.line(&format!("dec {}", hex(&m.encode(&mut None))));
                     o.line(&format!("dget {} {}", tcode, vend(wire)));
+                    // a neighbour with the same code under another vendor (with or without an entry of its own) in front of
+                    // it or behind it, at top level and inside a group: every AVP is typed by its own entry alone
+                    for nb in [None, Some(0u32), Some(5u32), Some(6u32), Some(7u32)] {
+                        if nb == wire {
+                            continue;
+                        }
+                        let b = GA { code: tcode, vendor: nb, flags: 0x40, v: GV::Oct(vec![0x61, 0x62, 0x63, 0x64]) };
+                        for pair in [vec![a.clone(), b.clone()], vec![b.clone(), a.clone()]] {
+                            let mut m = header(r);
+                            m.avps = pair.clone();
+                            o.line(&format!("dec {}", hex(&m.encode(&mut None))));
+                            let mut m = header(r);
+                            m.avps.push(GA { code: 600, vendor: None, flags: 0x40, v: GV::Grp(pair) });
+                            o.line(&format!("dec {}", hex(&m.encode(&mut None))));
+                        }
+                    }
                     // nested inside a group too: the enclosing group's vendor must not lend itself to the member,
                     // directly or through a vendor-less group in between
                     for (gc, gv) in [(600u32, None), (601, Some(5u32)), (602, Some(6u32))] {
@@ -3187,9 +3339,17 @@ pub fn generate(family: &str, seed: u64, tier: &str, extra: &[String], w: &mut d
             // several times with others in between; built through the API, and decoded from the wire (then extended)
             for i in 0..(if thorough { 40000 } else { 600 }) {
                 o.case("repeats");
-                let few: Vec<&GDef> = (0..2 + r.below(2)).map(|_| *r.pick(&d0.defs.iter().filter(|x| x.ty < 16).collect::<Vec<_>>())).collect();
+                let few: Vec<&GDef> = if i % 3 == 0 {
+                    // all the definitions of one code (they differ in vendor and type): neighbours with the same code
+                    let code = *r.pick(&[300u32, 301, 302, 1, 9, 14]);
+                    d0.defs.iter().filter(|x| x.code == code && x.ty < 16).collect()
+                } else {
+                    (0..2 + r.below(2)).map(|_| *r.pick(&d0.defs.iter().filter(|x| x.ty < 16).collect::<Vec<_>>())).collect()
+                };
                 let mut m = header(&mut r);
-                for _ in 0..2 + r.below(5) {
+                // (now and then a long message: dozens of AVPs of two or three kinds, e.g. a trail of Route-Records)
+                let count = if i % 10 == 5 { 24 + r.below(70) } else { 2 + r.below(5) };
+                for _ in 0..count {
                     let def = *r.pick(&few);
                     let a = if def.ty == T_GROUPED {
                         let ms: Vec<GA> = (0..r.below(6)).map(|_| { let dd = *r.pick(&few); if dd.ty == T_GROUPED { GA { code: dd.code, vendor: dd.vendor, flags: 0x40, v: GV::Grp(vec![]) } } else { avp_of(&mut r, &d0, dd, 0, 0) } }).collect();
@@ -3341,6 +3501,7 @@ pub fn generate(family: &str, seed: u64, tier: &str, extra: &[String], w: &mut d
         "c13" => gen_c13(&mut o, &mut r, tier),
         "c14" => {
             gen_c14(&mut o, &mut r, tier);
+            gen_big_documents(&mut o, &mut r, tier);
             gen_dict_objects(&mut o);
         }
         "c15" => gen_c15(&mut o, &mut r, tier, extra),
